@@ -384,6 +384,10 @@ class _StubNode:
     def __mod__(self, o): return _StubNode(("PY_MOD",))
 
 
+class _ZeroArgMinMax(TypeError):
+    """Max()/Min() without arguments: SymPy returns -oo/oo; outside the model (model and stub reject)."""
+
+
 class _StubSympy:
     """Stands for the `sympy` module inside onnx_ir._symbolic_shapes: records constructor calls."""
     Expr = _StubNode
@@ -426,7 +430,7 @@ class _StubSympy:
         self._c(nm)
         if not a:
             # SymPy: Max() = -oo, Min() = oo; outside the model (documented), rejected by stub and model alike
-            raise TypeError(f"{nm}() without arguments")
+            raise _ZeroArgMinMax(f"{nm}() without arguments")
         t = a[-1].t
         for x in reversed(a[:-1]):
             t = m_bin(o, x.t, t)
@@ -1050,6 +1054,12 @@ def _known_key(ck, case: dict, obs: dict, bad: list[str]) -> str | None:
         rest = [b for b in rest if b.split(":")[0] != "simplify_reparse"]
         if len(rest) < len(bad):
             keys.append("simplify-piecewise-text")
+    if "simplify-piecewise-evaluate" in known and "Piecewise" in st:
+        n0 = len(rest)
+        rest = [b for b in rest if not (b.split(":")[0] in ("simplify", "shape_simplify", "simplify_reparse")
+                                        and "ZeroDivisionError" in b)]
+        if len(rest) < n0:
+            keys.append("simplify-piecewise-evaluate")
     if rest:
         attr = sympy_attribution(case, obs, rest)
         if attr is None:
@@ -1262,6 +1272,9 @@ def check_strings(ck, items: list[dict], report) -> None:
         parser_rows.append((text, r))
         it["_stub"] = r
         run_real = r[0] != "ok" or _small_pow(r[1], b)
+        if r == ("raise", "_ZeroArgMinMax"):
+            ck.hist("strings", "Max()/Min() without arguments (SymPy: -oo/oo; outside the model, not compared)")
+            run_real = False
         if run_real:
             o = observe_string(text, b)
             if o["parse"] != "timeout":
@@ -1341,6 +1354,8 @@ def check_trees(ck, cases: list[dict], report) -> None:
             ck.hist("known_finding_hits", key)
             obs = dict(obs)
             obs.pop("simplify_reparse", None)
+            if "simplify-piecewise-evaluate" in key:
+                obs.pop("simplify", None)
             if "sympy-autoeval" in key:
                 in_coq = False     # SymPy's value contradicts exact arithmetic here: the finding, not the model
         elif bad:
